@@ -7,7 +7,7 @@ ID = "C14"
 DRIVER = "cluster"
 IMPL_ENV = {"NUN_ELECTION_TIMEOUT": "20"}
 MODEL_FILES = ["Model/Base.v", "Model/Parse.v", "Model/Node.v", "Model/Pending.v", "Model/Oplog.v", "Model/Cluster.v"]
-THEOREMS = ["C14_secondary_never_fans_out", "C14_secondary_repl_one_node", "C14_secondary_poll_never_fans_out", "C14_fan_out_spec", "C14_fan_out_exact", "C14_leader_repl_one", "C14_primary_write_queues", "C14_replicated_line_applies"]
+THEOREMS = ["C14_secondary_never_fans_out", "C14_secondary_repl_one_node", "C14_secondary_poll_never_fans_out", "C14_fan_out_spec", "C14_fan_out_exact", "C14_leader_repl_one", "C14_primary_write_queues", "C14_replicated_line_applies", "C14_burst_exact_cluster", "C14_burst_potential_invariant", "C14_burst_bounded_anytime_cluster", "C14_burst_bounded_cluster", "C14_then_silence_cluster", "C14_pending_cleared_cluster", "C14_refused_write_sends_nothing_cluster", "C14_burst_needs_nodup", "C14_pending_needs_closed", "C14_burst_example_exact"]
 STRENGTH = {t: "proof-unbounded" for t in THEOREMS}
 RULE = ("every client-visible command (data commands, resolve on an arbiter database, snapshot, create-user, set-permissions, increment, "
         "remove, create-db, watch/keys/get, refused commands) issued on every node of 2- and 3-node clusters (exhaustive: command x node "
